@@ -538,9 +538,9 @@ func runISOProperty(t *testing.T, prop string) {
 	defer r.Done()
 	structural := prop == "C08"
 	if structural {
-		r.Rule("every tree with <= N nodes (dirs / files of size 0,1,2047,2048,2049) x every enumeration order of directory listings x {plain, PS3}; families: 1..300 entries per directory, chain depth 0..8, up to 1100 directories, name length 1..255, non-ASCII and colliding names, root-name length, symbolic links, sparse files around 4 GiB..9 GiB, PARAM.SFO key orders/entry counts, every Read capped at 1..2047 bytes; for every 29th case also the image the real make-iso writes to a file and to standard output; oracle = strict ECMA-119/Joliet/PS3 validator written from the standard; distinct by case description")
+		r.Rule("every tree with <= N nodes (dirs / files of size 0,1,2047,2048,2049) x every enumeration order of directory listings x {plain, PS3}; families: 1..300 entries per directory, chain depth 0..8, up to 1100 directories, name length 1..255, non-ASCII and colliding names, root-name length, symbolic links, sparse files around 4 GiB..9 GiB, PARAM.SFO key orders/entry counts, every Read capped at 1..2047 bytes; for every 29th case also the image the real make-iso writes to a file and to standard output; a tree that changes between opens through one serving filesystem (12 kinds of change x times restored or not x both mode orders); oracle = strict ECMA-119/Joliet/PS3 validator written from the standard; distinct by case description")
 	} else {
-		r.Rule("every tree with <= N nodes (dirs / files of size 0,1,2047,2048,2049) x every enumeration order of directory listings x {plain, PS3}; families: 1..300 entries per directory, chain depth 0..8, up to 1100 directories, sizes around 64 KiB, sparse files around 4 GiB..9 GiB, symbolic links to files and directories (relative, absolute, chained), trees holding disc images and key files (generator called directly and through the serving filesystem); for every 29th case also the image the real make-iso writes to a file and to standard output; oracle = independent ISO 9660/Joliet reader: both hierarchies hold exactly the source entries with exact sizes and bytes; distinct by case description")
+		r.Rule("every tree with <= N nodes (dirs / files of size 0,1,2047,2048,2049) x every enumeration order of directory listings x {plain, PS3}; families: 1..300 entries per directory, chain depth 0..8, up to 1100 directories, sizes around 64 KiB, sparse files around 4 GiB..9 GiB, symbolic links to files and directories (relative, absolute, chained), trees holding disc images and key files (generator called directly and through the serving filesystem); for every 29th case also the image the real make-iso writes to a file and to standard output; a tree that changes between opens through one serving filesystem (12 kinds of change x times restored or not x both mode orders, five opens each, also compared with a fresh build); oracle = independent ISO 9660/Joliet reader: both hierarchies hold exactly the source entries with exact sizes and bytes; distinct by case description")
 	}
 	base := filepath.Join(scratchBase(), sprintf("verifh-%s-%d", strings.ToLower(prop), os.Getpid()))
 	root := filepath.Join(base, "root")
@@ -690,6 +690,7 @@ func runISOProperty(t *testing.T, prop string) {
 	}
 	isoTreeCases(maxNodes, maxPerm, c09Sizes(), do)
 	isoFamilyCases(r.Thorough(), structural, do)
+	isoChangingTree(r, prop, base, &idx, false)
 	if r.Shard == 0 {
 		anchorISOReader(r)
 		if !structural {
